@@ -3,6 +3,8 @@
    the class of alterations that keep the varint framing (no probabilistic assumption), and the
    refutation exhibits the undetected alteration. *)
 From GoSST Require Import Base.Bytes RecordIO.Format RecordIO.SeqReader RecordIO.MmapReader.
+From GoSST Require Import Base.CodeFacts.
+From GoSSTGen Require Import FactsCode.
 From GoSST Require Import RecordIO.FormatFacts RecordIO.WriteReadFacts RecordIO.DamageFacts.
 Local Open Scope N_scope.
 
@@ -16,6 +18,11 @@ Theorem C12_truncation_prefix :
       /\ read_all fuel c (firstn (N.to_nat n) f) 8
          = map (fun r => Ok r) (complete_prefix c rs (n - 8)) ++ [Err e].
 Proof. exact truncation_prefix. Qed.
+(* the constructors the two sides call in the source, re-read on every run *)
+Theorem C12_header_checksum_same_on_both_sides :
+  header_crc_writer_castagnoli = true /\ header_crc_reader_castagnoli = true.
+Proof. pose proof hash_facts as H; split; apply H. Qed.
+
 Print Assumptions C12_truncation_prefix.
 
 Theorem C12_truncation_read_at :
@@ -71,3 +78,4 @@ Theorem C12_file_header_rejected :
   (v < 1 \/ 4 < v \/ 3 < ct) -> parse_file_hdr f = Err Rejected.
 Proof. exact file_header_rejected. Qed.
 Print Assumptions C12_file_header_rejected.
+Print Assumptions C12_header_checksum_same_on_both_sides.
